@@ -269,10 +269,11 @@ class Model:
     # ------------------------------------------------------------------ calls / types of ast nodes
     def call_record(self, mod: ModuleInfo, call: ast.Call) -> list | None:
         ln, col, eln, ecol = src_pos(call)
-        recs = self._calls.get(mod.rel, {}).get((ln, col))
+        rel = getattr(call, '_orig_mod', None) or mod.rel
+        recs = self._calls.get(rel, {}).get((ln, col))
         if not recs:
             # inside f-strings mypy places a call one column to the left of where ast does
-            recs = [r for r in self._calls.get(mod.rel, {}).get((ln, col - 1), []) if r[2] == eln and r[3] == ecol]
+            recs = [r for r in self._calls.get(rel, {}).get((ln, col - 1), []) if r[2] == eln and r[3] == ecol]
         if not recs:
             return None
         if len(recs) == 1:
@@ -309,7 +310,7 @@ class Model:
         return list(r[6])
 
     def type_of(self, mod: ModuleInfo, expr: ast.AST) -> str:
-        tbl = self._types.get(mod.rel, {})
+        tbl = self._types.get(getattr(expr, '_orig_mod', None) or mod.rel, {})
         k = src_pos(expr)
         t = tbl.get(k)
         if t is None:
